@@ -154,7 +154,8 @@ class Job:
         self.deadline = line.get("deadline")
         self.procs = line.get("procs")
         self.fuzz_note = line.get("fuzz_note")
-        self.name = "%s.%s.%s.%d" % (self.wl, self.variant, config, shard) + (("." + line["tag"]) if line.get("tag") else "")
+        self.name = "%s.%s.%s.%d" % (self.wl, self.variant, config, shard) + (("." + line["tag"]) if line.get("tag") else "") + (
+            (".p%s" % line["procs"]) if line.get("procs") else "")   # jobs that differ in GOMAXPROCS only must not share journal and slot
         self.journal = os.path.join(rundir, self.name + ".jsonl")
         self.cur = os.path.join(rundir, self.name + ".cur")
         self.stderr = os.path.join(rundir, self.name + ".stderr")
